@@ -20,4 +20,5 @@ pub mod eng_capi;
 pub mod eng_mem;
 pub mod eng_compfs;
 pub mod eng_rloop;
+pub mod eng_compw;
 pub mod alloc;
